@@ -7,7 +7,7 @@ import subprocess
 import sys
 import tempfile
 
-from .. import gen
+from .. import gen, layout_gen
 from . import c07
 
 PROPERTY = "C08"
@@ -57,6 +57,27 @@ def cases(tier, seed):
         u["order"] = None if k % 2 else u["order"][: len(u["order"]) // 2]
         u["glyphNames"] = rng.sample(sorted(u["glyphs"]), len(u["glyphs"]))
         sources.append(("ufo", {"kind": "ufo", "ufo": u}, f"gen-partial-{k}@lib"))
+    for k in range(12 if tier == "quick" else 60):
+        # layout-heavy sources with non-default writer options (set through the UFO lib so every call history sees them):
+        # many mark classes with marks in several classes, grouped mark lookups, both kern writers, quantisation
+        kind = 0 if k % 2 == 0 else (1 + (k // 2) % 2)       # every second layout source stresses the mark writer
+        if kind == 0:
+            # keep drawing until the font has >= 3 mark classes and a mark glyph that belongs to two of them
+            for _try in range(200):
+                c = layout_gen.anchors_font(rng)
+                marks = [[a["n"] for a in g["anchors"] if a["n"].startswith("_") and not a["n"][1:].isdigit()] for g in c["ufo"]["glyphs"].values()]
+                classes = {a for m in marks for a in m}
+                if len(classes) >= 3 and any(len(set(m)) >= 2 for m in marks):
+                    break
+            c["ufo"].setdefault("lib", {})["com.github.googlei18n.ufo2ft.featureWriters"] = [
+                {"class": "MarkFeatureWriter", "options": {"groupMarkClasses": True, "quantization": c["q"]}}]
+        elif kind == 1:
+            c = layout_gen.kerning_font(rng)
+            c["ufo"].setdefault("lib", {})["com.github.googlei18n.ufo2ft.featureWriters"] = [
+                {"class": "KernFeatureWriter", "options": {"quantization": c["q"]}}, {"class": "MarkFeatureWriter"}]
+        else:
+            c = layout_gen.gdefcurs_font(rng)
+        sources.append(("ufo", {"kind": "ufo", "ufo": c["ufo"]}, f"gen-layout-{k}"))
     for k in range(1 if tier == "quick" else 8):
         sources.append(("ds", {"kind": "family", "family": gen.rich_family(rng, n_masters=rng.choice([2, 3]))}, f"gen-fam-{k}"))
     fx_u = ["TestFont.ufo", "ColorTest.ufo", "TestMathFont-Regular.ufo"] if tier == "quick" else \
@@ -71,12 +92,17 @@ def cases(tier, seed):
     k = 0
     for kind, src, sid in sources:
         hists = UFO_HISTORIES if kind == "ufo" else DS_HISTORIES
-        if tier == "quick":
+        if sid.startswith("gen-layout"):
+            hists = [[("compileTTF", {})]]
+        elif tier == "quick":
             hists = rng.sample(hists, 4)
         for hi, h in enumerate(hists):
             envs = [(hs, lib, via) for hs in seeds for lib in ("ufoLib2", "defcon") for via in ("memory", "disk")]
             # every history is run in >= 3 environments (quick) / all (thorough)
-            chosen = rng.sample(envs, 3) if tier == "quick" else envs
+            if sid.startswith("gen-layout"):
+                chosen = [(hs, "ufoLib2", "memory") for hs in ["0", "1", "2", "3", "5", "17", "101", "4242"]] + [(seeds[0], "defcon", "disk")]
+            else:
+                chosen = rng.sample(envs, 3) if tier == "quick" else envs
             if src["kind"].endswith("-path"):
                 chosen = [e for e in chosen if e[2] == "memory"] or chosen[:1]
             for hs, lib, via in chosen:
